@@ -96,6 +96,8 @@ def run(prog, rep, tier='quick', config='default'):
             # would leave qualifying affiliates without their adjustment, so part of the denied loss is carried nowhere)
             cut = []
             for (par, hc, ai) in mir.handed_to(prog, h):
+                if ai >= 1 and hc.decl.startswith('std::iter::') and hc.short in ('map_while', 'take_while', 'skip_while', 'scan'):
+                    cut.append(hc)       # the row constructor itself decides where the chain ends
                 if ai >= 1 and hc.decl.startswith('std::iter::'):
                     src = mir.provenance(par, hc.args[0], follow_all_call_args=False,
                                          pass_through=mir.PASS_THROUGH | {'map', 'filter', 'into_iter', 'iter', 'enumerate', 'rev', 'copied', 'cloned',
@@ -353,6 +355,30 @@ def run(prog, rep, tier='quick', config='default'):
                                          'denied amount is no longer carried anywhere')
         if n_sites == 0:
             rep.violation('R3g', 'anchor-lost:empty-status-call-sites', detail='anchor lost: the empty-status constructor has no product caller')
+
+    # ------------------------------------------------------------------ R3h: a recorded status is never dropped
+    # the per-affiliate store of latest statuses (a map of Rc<PortfolioSecurityStatus> in portfolio_status) is only ever inserted into:
+    # an affiliate with zero shares can carry cost base (a denied loss waiting for its re-purchase); clearing / removing entries loses it
+    STORE_RX = re.compile(r'HashMap<.*std::rc::Rc<(portfolio::model::txdelta::)?PortfolioSecurityStatus>')
+    n_store = 0
+    for fn in prog.product_fns():
+        if not fn.name.startswith('portfolio::bookkeeping::') or mir.is_testsupport(fn.name):
+            continue
+        for c in fn.calls:
+            if not c.args or not is_place(c.args[0]):
+                continue
+            t0 = fn.ty.get(c.arg_local(0), '') or ''
+            if not STORE_RX.search(t0) or not re.search(r'HashMap::<K, V', c.callee):
+                continue
+            n_store += 1
+            if c.short in ('clear', 'remove', 'remove_entry', 'retain', 'drain', 'extract_if', 'take'):
+                rep.violation('R3h', '%s|status-store-%s' % (fn.name, c.short), where=c.where(), fn=fn.name,
+                              detail='the store of each affiliate\'s latest status is shrunk (%s): an affiliate without shares can still carry cost '
+                                     'base (a denied loss added while it held nothing), which is then dropped and added to no later figure' % c.short)
+    if n_store == 0:
+        rep.violation('R3h', 'anchor-lost:status-store', detail='anchor lost: the per-affiliate map of latest statuses in portfolio::bookkeeping')
+    elif not any(o.rule == 'R3h' and o.status == 'violation' for o in rep.obs):
+        rep.ok('R3h', 'status-store-only-grows', fn='portfolio::bookkeeping', detail='%d uses of the per-affiliate status store, none removes or clears entries' % n_store)
 
     # ------------------------------------------------------------------ R3e: gain = loss - denied amount
     L = ledger.Ledger(prog)
